@@ -172,6 +172,10 @@ func (w *Writer) StoreWithOptions(bom *sbom.Document, o *Options) error {
 		return fmt.Errorf("no storage backend configured")
 	}
 
+	if o == nil {
+		return fmt.Errorf("unable to store document, options cannot be nil")
+	}
+
 	if err := w.Storage.Store(bom, o.StoreOptions); err != nil {
 		return fmt.Errorf("calling backend store: %w", err)
 	}
